@@ -14,8 +14,8 @@ RULE = ("seeded VRPTW instances x (arc-based with grids given in any order: inte
         "admissible ranges (incl. off-grid times, non-arcs, out-of-window times) and on indices 0..n+2; non-trivial = n >= 2 and at least one "
         "inadmissible tuple in the box; distinct = distinct instance")
 ASSUMPTIONS = [
-    "time grid without duplicate values (duplicated grid values duplicate variables in the real code: malformed input, excluded)",
-    "sequence-based lookups are exercised for tuples inside the declared ranges (out-of-range positions raise IndexError in numpy = 'maps to nothing'; negative indices wrap around in Python and are outside the quantifier 'at or beyond n')",
+    "time grids with repeated values are generated (add_time_points keeps each value once since fix 3a58a20; proved in C18b.addTimePoints_wf)",
+    "the Lean lookups take natural-number arguments; tuples with negative components and negative indices are checked on the real code by the oracle only (they map to nothing since fixes 2b6bbc0 and the negative-index fix)",
 ]
 PARTIAL = []
 BUDGET_S = {"quick": 90, "thorough": 900}
@@ -192,6 +192,16 @@ def run_case(case, drv):
                 break
         elif u is not None:
             res.fail(f"{form}:index-beyond-n", f"index {k} >= n={n} maps to {core.jsonable(u)}")
+            break
+    # negative indices are no variable indices either (Python's negative indexing must not wrap around to variable n + k)
+    for k in (-1, -max(n, 1), -n - 1):
+        try:
+            u = tup(k)
+        except Exception as e:  # noqa
+            res.fail(f"{form}:index-negative-raises", f"get_var_tuple_index({k}) raised {e!r}")
+            break
+        if u is not None:
+            res.fail(f"{form}:index-negative", f"index {k} < 0 maps to {core.jsonable(tuple(u))} (n={n})")
             break
     res.nontrivial = n >= 2 and ninadm >= 1
     # ---------------- second phase (sequence-based): the problem is changed through the object (another node becomes the depot; sizes
